@@ -7,7 +7,7 @@ from .state import State, dtype, key_alloc, key_card
 I = z3.IntSort()
 
 PURE_BUILTINS = {'len', 'range', 'isinstance', 'int', 'str', 'bool', 'min', 'max', 'abs', 'all', 'any', 'divmod', 'tuple',
-                 'old', 'implies', 'fresh', 'seq', 'dom', 'unchanged', 'type', 'iff', 'card', 'content', 'ite', 'is_none', 'val'}
+                 'old', 'implies', 'fresh', 'seq', 'dom', 'unchanged', 'type', 'iff', 'card', 'content', 'ite', 'is_none', 'val', 'prefix'}
 STR_METHODS = {'isupper': BOOL, 'islower': BOOL, 'upper': STR, 'lower': STR, 'startswith': BOOL, 'endswith': BOOL,
                'count': INT, 'isidentifier': BOOL, 'isdigit': BOOL, 'strip': STR, 'lstrip': STR, 'rstrip': STR,
                'encode': STR, 'decode': STR, 'find': INT, 'isalnum': BOOL, 'isalpha': BOOL, 'replace': STR, 'join': STR}
@@ -299,6 +299,12 @@ class CallMixin:
         v = self.ev1(e.args[0], st)
         yield self.seq_of(v, st), st
 
+    def bi_prefix(self, e, st):
+        """prefix(xs, k): the first k elements (spec only; meaningful for 0 <= k <= len(xs))"""
+        v = self.seq_of(self.ev1(e.args[0], st), st)
+        k = self.ev1(e.args[1], st)
+        yield SeqV(v.elem, v.arr, k.z), st
+
     def bi_is_none(self, e, st):
         v = self.ev1(e.args[0], st)
         yield SV(BOOL, self.equal(v, SV(NONE, NONEV), st)), st
@@ -378,7 +384,10 @@ class CallMixin:
             self.check_write(s, recv.z, e, 'append')
             es = sort_of(recv.ty.args[0])
             n = s.llen(recv.z)
-            s.lset(recv.z, es, z3.Store(s.larr(recv.z, es), n, self.coerce(v, recv.ty.args[0], s).z), n + 1)
+            old_arr = s.larr(recv.z, es)
+            new_arr = z3.Store(old_arr, n, self.coerce(v, recv.ty.args[0], s).z)
+            s.lset(recv.z, es, new_arr, n + 1)
+            self.seq_lemmas(SeqV(recv.ty.args[0], new_arr, n + 1), SeqV(recv.ty.args[0], old_arr, n), n, s)
             yield SV(NONE, NONEV), s
 
     def m_list_pop(self, recv, e, st):
@@ -617,6 +626,8 @@ class CallMixin:
         if len(pos) > len(params):
             _unsup('too many arguments for %s' % c.target, node)
         for (pn, pt), v in zip(params, pos):
+            if not isinstance(v, SeqV) and v.ty.kind == 'opt' and pt.kind not in ('opt', 'any'):
+                self.check(st, z3.Not(opt_is_none(v)), 'TypeError', 'none', node)
             env[pn] = v if isinstance(v, SeqV) else self.coerce(v, pt, st)
         for k, v in kw.items():
             pt = dict(params).get(k)
